@@ -113,3 +113,56 @@ theorem rep_clear (fs : FlatStack R S) (spec : List V) (h : fs.Rep spec) : fs.cl
 end C03
 end
 end FC
+
+namespace FC
+open Region
+
+theorem map_eq_filterMap_some {α β : Type} (f : α → Option β) (l : List α) (h : ∀ x ∈ l, (f x).isSome) :
+    l.map f = (l.filterMap f).map some := by
+  induction l with
+  | nil => rfl
+  | cons a l ih =>
+    have ha := h a (List.mem_cons_self ..)
+    cases hf : f a with
+    | none => simp [hf] at ha
+    | some b =>
+      simp only [List.map_cons, List.filterMap_cons, hf, List.map_cons]
+      rw [ih (fun x hx => h x (List.mem_cons_of_mem _ hx))]
+
+section
+variable {R V I S : Type} [Region R V I] [IdxCont S I] [LawfulRegion R] [LawfulIdxCont S]
+
+namespace C03
+/-- **C03 (iteration)**: iterating a stack that represents `spec` yields, in order, one item per
+copied value, each `same` as that value — never a panic, never another element. A cloned iterator
+is the same list again (values are immutable in the model), and the remaining count after `n`
+steps is exactly `spec.length - n` (what `size_hint` brackets). -/
+theorem iter_spec (fs : FlatStack R S) (spec : List V) (h : fs.Rep spec) :
+    ∃ us : List V, fs.iter = us.map some ∧ us.length = spec.length ∧
+      ∀ (k : Nat) (u : V), us[k]? = some u → ∃ w, spec[k]? = some w ∧ same (R := R) u w := by
+  obtain ⟨hin, hc, hlen, hall⟩ := h
+  have hsome : ∀ i ∈ IdxCont.iter fs.indices, (index fs.region i).isSome := by
+    intro i hi
+    obtain ⟨k, hk, rfl⟩ := List.getElem_of_mem hi
+    obtain ⟨_, u, _, hu, _, _⟩ := hall k _ (List.getElem?_eq_getElem hk)
+    simp [hu]
+  refine ⟨(IdxCont.iter fs.indices).filterMap (index fs.region), map_eq_filterMap_some _ _ hsome, ?_, ?_⟩
+  · have := congrArg List.length (map_eq_filterMap_some (index fs.region) _ hsome)
+    simp only [List.length_map] at this
+    rw [← this, hlen]
+  · intro k u hk
+    have hmap := map_eq_filterMap_some (index fs.region) (IdxCont.iter fs.indices) hsome
+    have hk' : ((IdxCont.iter fs.indices).map (index fs.region))[k]? = some (some u) := by
+      rw [hmap, List.getElem?_map, hk]; rfl
+    rw [List.getElem?_map] at hk'
+    cases hi : (IdxCont.iter fs.indices)[k]? with
+    | none => simp [hi] at hk'
+    | some i =>
+      simp only [hi, Option.map_some, Option.some.injEq] at hk'
+      obtain ⟨_, u', w, hu', hw, hs⟩ := hall k i hi
+      rw [hk'] at hu'
+      cases hu'
+      exact ⟨w, hw, hs⟩
+end C03
+end
+end FC
